@@ -332,6 +332,45 @@ def rule_R12_for_ref(text: str, counts: dict) -> str:
         counts["R12"] = counts.get("R12", 0) + 1
 
 
+def rule_R13_for_tuple_tail(text: str, counts: dict) -> str:
+    """R13: `for &(A, B) in &E[LO..] {` -> `assert(LO <= E.len()); for vtix__N in LO..E.len() { let (A, B) = E[vtix__N];`
+    for a plain place expression E (Vec/slice of a Copy pair) and an integer literal LO.  The `assert` keeps
+    the slice-range panic obligation of `E[LO..]` that the plain index loop would otherwise drop."""
+    n = 0
+    while True:
+        toks = rustlex.lex(text)
+        sig = [i for i, t in enumerate(toks) if t.kind not in ("ws", "comment", "doc")]
+        hit = None
+        for p, i in enumerate(sig):
+            if toks[i].kind == "ident" and toks[i].text == "for" and p + 10 < len(sig):
+                tx = [toks[j].text for j in sig[p:p + 9]]
+                if tx[1] == "&" and tx[2] == "(" and tx[4] == "," and tx[6] == ")" and tx[7] == "in" and tx[8] == "&":
+                    q = p + 9
+                    expr = []
+                    while q < len(sig) and (toks[sig[q]].kind == "ident" or toks[sig[q]].text == "."):
+                        expr.append(toks[sig[q]].text)
+                        q += 1
+                    tail = [toks[j].text for j in sig[q:q + 6]]
+                    # [ LO .. ] {      (lexer may give `..` as one or two tokens)
+                    if expr and tail[:1] == ["["] and re.fullmatch(r"[0-9]+", tail[1] or ""):
+                        rest = "".join(tail[2:])
+                        if rest.startswith("..]{"):
+                            k = q + 2
+                            acc = ""
+                            while acc != "..]{":
+                                acc += toks[sig[k]].text
+                                k += 1
+                            hit = (toks[i].start, toks[sig[k - 1]].end, tx[3], tx[5], "".join(expr), tail[1])
+                            break
+        if not hit:
+            return text
+        a, b, v1, v2, e, lo = hit
+        n += 1
+        nl = text[a:b].count("\n")
+        text = text[:a] + f"assert({lo} <= {e}.len()); for vtix__{n} in {lo}..{e}.len() {{ let ({v1}, {v2}) = {e}[vtix__{n}];" + "\n" * nl + text[b:]
+        counts["R13"] = counts.get("R13", 0) + 1
+
+
 def keep_attr(a: str) -> bool:
     return False
 
@@ -584,6 +623,7 @@ class UnitBuilder:
             text = rule_R10_mut_self(text, self.counts)
             text = rule_R11_enumerate(text, self.counts)
             text = rule_R12_for_ref(text, self.counts)
+            text = rule_R13_for_tuple_tail(text, self.counts)
         for rule, frm, to in self.spec.rewrites:
             text = rule_R3_token_replace(text, frm, to, rule, self.counts)
         # R4 on the full item text (attributes before decl were already excluded by using it.decl)
